@@ -333,14 +333,13 @@ func clip(s string, n int) string {
 
 // conc: sequential baseline, then 16 goroutines.
 func (p c18) conc(c *core.C, inputs []string) {
+	// The concurrent round runs FIRST, on inputs this process has never parsed
+	// (a sequential warm-up would hide races on lazily filled state); the
+	// sequential baseline is computed afterwards.
 	base := make([][]string, len(inputs))
-	for i, in := range inputs {
-		base[i] = make([]string, len(c18Entries))
-		for k, e := range c18Entries {
-			base[i][k], _, _ = e.run([]byte(in))
-		}
-	}
 	const G = 16
+	defer func() {}()
+	results := make([]map[[2]int]string, G)
 	var inflight, maxInflight int64
 	var hist [G + 1]int64
 	diffs := make([][]string, G)
@@ -356,6 +355,7 @@ func (p c18) conc(c *core.C, inputs []string) {
 					diffs[g] = append(diffs[g], fmt.Sprintf("panic in goroutine %d: %v", g, r))
 				}
 			}()
+			results[g] = map[[2]int]string{}
 			<-start
 			// own inputs and the neighbours' (so the same text is parsed by several goroutines at once)
 			for round := 0; round < 2; round++ {
@@ -374,9 +374,10 @@ func (p c18) conc(c *core.C, inputs []string) {
 						}
 						got, _, _ := e.run([]byte(inputs[i]))
 						atomic.AddInt64(&inflight, -1)
-						if got != base[i][k] {
-							diffs[g] = append(diffs[g], fmt.Sprintf("%s on input %d: concurrent result differs from the sequential one:\n sequential: %s\n concurrent: %s", e.name, i, clip(base[i][k], 200), clip(got, 200)))
+						if prev, seen := results[g][[2]int{i, k}]; seen && prev != got {
+							diffs[g] = append(diffs[g], fmt.Sprintf("%s on input %d: two concurrent calls in one goroutine differ", e.name, i))
 						}
+						results[g][[2]int{i, k}] = got
 					}
 				}
 			}
@@ -384,6 +385,19 @@ func (p c18) conc(c *core.C, inputs []string) {
 	}
 	close(start)
 	wg.Wait()
+	for i, in := range inputs {
+		base[i] = make([]string, len(c18Entries))
+		for k, e := range c18Entries {
+			base[i][k], _, _ = e.run([]byte(in))
+		}
+	}
+	for g := 0; g < G; g++ {
+		for key, got := range results[g] {
+			if got != base[key[0]][key[1]] {
+				diffs[g] = append(diffs[g], fmt.Sprintf("%s on input %d: concurrent result differs from the sequential one:\n sequential: %s\n concurrent: %s", c18Entries[key[1]].name, key[0], clip(base[key[0]][key[1]], 200), clip(got, 200)))
+			}
+		}
+	}
 	for _, d := range diffs {
 		for _, m := range d {
 			c.Failf("%s", m)
@@ -444,6 +458,12 @@ func (p c18) RunBatch(t *core.T, b core.Batch) {
 					s = c18Mutate(r, s)
 				}
 				inputs = append(inputs, s)
+			}
+			// names no call in this process has seen before (cold caches, if there are any)
+			for k := 0; k < 24; k++ {
+				a1, a2, a3 := r.Str("abcdefghijklmnop", 6), r.Str("qrstuvwxyz", 5), r.Str("0123456789", 4)
+				inputs = append(inputs, fmt.Sprintf("pkg%s:%s (>= %s) [%s-%s %s], %s <%s>", a1, a2, a3, a1, a3, a2, a3, a1))
+				inputs = append(inputs, fmt.Sprintf("%s %s-%s %s-%s-%s", a2, a1, a2, a3, a2, a1))
 			}
 			in, _ := json.Marshal(inputs)
 			t.Case("conc", in, func(c *core.C) { p.conc(c, inputs) })
